@@ -185,3 +185,9 @@ package cron
 // behaviour is identical to an unprotected location"), not under a context made up for the job.
 //@ func (*InternalCron).ScheduleEvent$1
 //@   assert[C19+C15.scheduled_job_runs_under_the_installers_context] at "call:ProcessEvent": callarg(ctx) == ctx
+
+// C16: the timeline is ordered by the due instants themselves - for every instant a time.Time can hold, not only for those
+// whose nanosecond count fits in 64 bits.
+//@ func (Timeline).Less
+//@   requires i >= 0 && i < len(tl) && j >= 0 && j < len(tl)
+//@   ensures[C16.timeline_is_ordered_by_due_instant] result == (nanos(tl[i].Next) < nanos(tl[j].Next))
